@@ -232,7 +232,10 @@ def make_world(seed, kind):
     for attempt in range(20):
         w, nf = _make_world(seed + 7919 * attempt, kind)
         if not ends_at_tolerance_boundary(w):
-            return w, nf
+            break
+    # reads whose alignments are EXACT ties (uninformative, equal coordinates on exact copies of a locus) are resolved by coordinate and
+    # sequence order: outside the quantifier of C11 (as the twin loci are)
+    w.reads = [r for r in w.reads if r.truth.get("class") != "mm-uninformative-same-coordinates"]
     return w, nf
 
 
